@@ -90,6 +90,7 @@ class Gen:
         self.fired = {}       # fault kind -> count (as generated into the program)
         self.events = []      # abstract event log for coverage signature
         self.skipped = {}
+        self.num_weights = rng.random() < 0.1   # this caller's weights come out of numpy arrays / json floats
         self.subvars = set()  # leaf ids that are instances of a puan.variable *subclass* in this world
         self.last_keys = {}
         self.async_abort = False   # only C09 histories carry asynchronous aborts
@@ -349,8 +350,13 @@ class Gen:
         if len(bools) < 3:
             return None
 
+        ints = [i for i in sorted(self.leafb) if self.leafb[i] == (-32768, 32767)]
+
         def comps(n):
-            return [{"id": i} for i in rng.sample(bools, min(n, len(bools)))]
+            out = [{"id": i} for i in rng.sample(bools, min(n, len(bools)))]
+            if ints and rng.random() < 0.4:
+                out.append({"id": rng.choice(ints), "dtype": "int", "type": "int"})
+            return out
         data = {"consequence": {"ruleType": rng.choice(["REQUIRES_ALL", "REQUIRES_ANY", "ONE_OR_NONE", "FORBIDS_ALL",
                                                          "REQUIRES_EXCLUSIVELY"]),
                                 "components": comps(rng.randint(1, 3))}}
@@ -484,7 +490,40 @@ class Gen:
         nodes = [n for n in R.walk(rec)]
         how = rng.choice(["bounds", "bounds", "bounds", "default", "class"])
         done = False
-        if how == "bounds":
+        cic = [n for n in nodes if n[0] == "cicJE"]
+        if cic and rng.random() < 0.5:
+            # same rule dictionaries, one component switched between boolean and integer type
+            def comps_of(d, out):
+                if isinstance(d, dict):
+                    if isinstance(d.get("components"), list):
+                        out += [c for c in d["components"] if isinstance(c, dict) and "id" in c]
+                    for v in d.values():
+                        comps_of(v, out)
+                elif isinstance(d, list):
+                    for v in d:
+                        comps_of(v, out)
+                return out
+            allc = []
+            for n in cic:
+                comps_of(n[1], allc)
+            if allc:
+                i = rng.choice(sorted({c["id"] for c in allc}))
+                to_int = not any(c["id"] == i and "dtype" in c for c in allc)
+                for c in allc:
+                    if c["id"] == i:
+                        if to_int:
+                            c["dtype"] = "int"
+                            c["type"] = "int"
+                        else:
+                            c.pop("dtype", None)
+                            c.pop("type", None)
+                nb = (-32768, 32767) if to_int else (0, 1)
+                for m in nodes:
+                    if m[0] in ("var", "str", "subvar") and m[1] == i:
+                        m[:] = ["subvar" if m[0] == "subvar" else "var", i, nb[0], nb[1]]
+                done = True
+                how = "cicje-type"
+        if how == "bounds" and not done:
             cands = [n for n in nodes if n[0] in ("var", "str", "subvar")]
             rng.shuffle(cands)
             top_level = {repr(c) for c in R.children(rec)}
@@ -514,7 +553,7 @@ class Gen:
                         m[:] = ["subvar" if m[0] == "subvar" else "var", i, nlo, nhi]
                 done = True
                 break
-        if how == "default" or (not done and how != "class"):
+        if (how == "default" and not done) or (not done and how != "class"):
             for n in nodes:
                 if n[0] in ("ccAny", "ccXor") and n[2] is not None:
                     if n[0] == "ccAny":
@@ -528,7 +567,7 @@ class Gen:
                     n[2] = None
                     done = True
                     break
-        if how == "class" or not done:
+        if (how == "class" and not done) or not done:
             for n in nodes:
                 if n[0] == "ccAny" and n[2] is None:
                     n[:] = ["Any", n[1], n[3]]
@@ -655,6 +694,8 @@ class Gen:
             w = rng.choice([-3, -2, -2, -1, -1, 1, 1, 2, 3, 5] + ([0] if allow_zero else []))
             if rng.random() < 0.04:
                 w = rng.choice([127, 128, 300, 1000, -129, -200, 40000, 2 ** 31])   # past int8/int16/int32
+            if self.num_weights and rng.random() < 0.5:
+                w = [rng.choice(["np", "fl"]), w]   # the caller hands numpy integers / integral floats
             d.append([i, w])
         if rng.random() < 0.08:
             d.append(["zz", 1])
@@ -1144,6 +1185,9 @@ def _perturb(g, e):
     a = e.get("a") or {}
 
     def tweak(v):
+        if isinstance(v, list) and v and v[0] in ("np", "fl"):
+            t = tweak(v[1])
+            return None if t is None else [v[0], t]
         if isinstance(v, bool) or not isinstance(v, int):
             return None
         if v == -1:
@@ -1172,7 +1216,7 @@ def _perturb(g, e):
                 else:
                     x, j = rng.choice(neg or cands)
                     nv = tweak(lst[x][j][1])
-                    lst[x][j][1] = nv if nv != 0 or key == "objs" else 1
+                    lst[x][j][1] = nv if (nv != 0 and nv != ["np", 0] and nv != ["fl", 0]) or key == "objs" else 1
                 return True
     return False
 
